@@ -307,3 +307,68 @@ Proof.
   assert (E : (n * h + n * h) / (2 * h) = n) by (symmetry; apply Z.div_unique_exact; [lia|ring]). rewrite E.
   rewrite Z.eqb_refl. rewrite Z.rem_mod_nonneg by lia. replace (n - 1 + n) with (n - 1 + 1 * n) by ring. rewrite Z.mod_add by lia. apply Z.mod_small. lia.
 Qed.
+
+(* ---------- the resolution limit of the model ----------
+   A cell of level 0 has width 2u and cannot be split.  If every coordinate is a multiple of a grid spacing g with 2u < g, two
+   particles that differ in at least one coordinate never share a (closed) level-0 cell, so the insertion is never stopped by
+   the resolution: a particle that is inside the cell and differs from every resident is ACCEPTED.  With the root cell at
+   level L, root_size = 2u * 2^L, i.e. the limit is  g > root_size / 2^L :  L levels resolve every set of particles whose
+   coordinates differ by more than root_size / 2^L wherever they differ. *)
+Section Resolution.
+Variable u : Z.
+Variable pos : nat -> P3.
+Variable g : Z.
+Hypothesis g_big : 2 * u < g.
+Hypothesis u_nonneg : 0 <= u.
+Definition ongrid (p : P3) : Prop := let '(x, y, z) := p in (g | x) /\ (g | y) /\ (g | z).
+
+Lemma same_pos_false : forall p q : P3, p <> q -> same_pos p q = false.
+Proof.
+  intros [[a b] c] [[a' b'] c'] H. unfold same_pos. destruct (a =? a') eqn:E1, (b =? b') eqn:E2, (c =? c') eqn:E3; try reflexivity.
+  exfalso. apply H. f_equal; [f_equal|]; lia.
+Qed.
+
+Lemma grid_close_eq : forall a b c0, (g | a) -> (g | b) -> Z.abs (a - c0) <= u -> Z.abs (b - c0) <= u -> a = b.
+Proof.
+  intros a b c0 [ka ->] [kb ->] Ha Hb. assert (Z.abs (ka * g - kb * g) <= 2 * u) by lia.
+  assert (ka = kb) by nia. congruence.
+Qed.
+
+Lemma add_no_exhaustion : forall l c node p,
+  owf u pos l c node -> inside u l c (pos p) -> ongrid (pos p) ->
+  (forall q, In q (oleaves node) -> ongrid (pos q) /\ pos q <> pos p) ->
+  exists t', add u pos l c node p = Some t'.
+Proof.
+  induction l as [|l' IH]; intros c node p Hwf Hin Hg Hq.
+  - destruct node as [[q|n oct]|]; cbn [add]; [|cbn in Hwf; contradiction|eexists; reflexivity].
+    exfalso. cbn [owf] in Hwf. rewrite wf_leaf in Hwf. destruct (Hq q (or_introl eq_refl)) as [Gq Nq]. apply Nq.
+    unfold inside, hw in *. rewrite Z.pow_0_r, Z.mul_1_r in *. unfold ongrid in *.
+    destruct c as [[cx cy] cz], (pos q) as [[qx qy] qz], (pos p) as [[px py] pz].
+    destruct Hwf as (A1 & A2 & A3), Hin as (B1 & B2 & B3), Gq as (G1 & G2 & G3), Hg as (P1 & P2 & P3).
+    f_equal; [f_equal|]; eapply grid_close_eq; eassumption.
+  - destruct node as [[q|n oct]|]; cbn [add]; [| |eexists; reflexivity].
+    + destruct (Hq q (or_introl eq_refl)) as [Gq Nq].
+      rewrite (same_pos_false (pos p) (pos q)) by congruence. rewrite andb_false_r.
+      cbn [owf] in Hwf. rewrite wf_leaf in Hwf.
+      set (o1 := octant c (pos q)). set (o2 := octant c (pos p)). set (oct0 := upd empty8 o1 (Some (Leaf q))).
+      assert (Ho1 : (o1 < 8)%nat) by apply octant_lt8.
+      destruct (IH (childc u c l' o2) (nth o2 oct0 None) p) as [d Hd].
+      * unfold oct0. destruct (Nat.eq_dec o1 o2) as [e|ne].
+        -- rewrite <- e. rewrite nth_upd_eq by (cbn; lia). cbn [owf]. rewrite wf_leaf. apply child_inside. exact Hwf.
+        -- rewrite nth_upd_ne by exact ne. rewrite nth_empty8. exact I.
+      * apply child_inside. exact Hin.
+      * exact Hg.
+      * intros q' Hq'. unfold oct0 in Hq'. destruct (Nat.eq_dec o1 o2) as [e|ne].
+        -- rewrite <- e in Hq'. rewrite nth_upd_eq in Hq' by (cbn; lia). cbn in Hq'. destruct Hq' as [<-|[]]. split; assumption.
+        -- rewrite nth_upd_ne in Hq' by exact ne. rewrite nth_empty8 in Hq'. destruct Hq'.
+      * rewrite Hd. eexists; reflexivity.
+    + cbn [owf] in Hwf. rewrite wf_node_S in Hwf. destruct Hwf as (Lo & _ & _ & Ch).
+      set (o := octant c (pos p)). assert (Ho : (o < 8)%nat) by apply octant_lt8.
+      destruct (IH (childc u c l' o) (nth o oct None) p) as [d Hd].
+      * destruct (nth o oct None) as [d0|] eqn:E; [|exact I]. cbn [owf]. apply Ch. apply nth_nth_error. exact E.
+      * apply child_inside. exact Hin.
+      * exact Hg.
+      * intros q' Hq'. apply Hq. cbn [oleaves]. rewrite leaves_node. apply in_flat_map. exists (nth o oct None). split; [apply nth_In; lia|exact Hq'].
+      * rewrite Hd. eexists; reflexivity.
+Qed.
+End Resolution.
